@@ -2,6 +2,8 @@
  * line format; both sides implement the same scenario semantics and print the same canonical trace).
  *
  *   msg <sess,…> <fates|-> <ev> …      one client context, UDP client sessions, a scripted peer
+ *                                      (events S: / i: / k: = explicit token / ICMP error / keepalive: the model side is
+ *                                      lean/CoapVerif/Model/MsgLayerX.lean)
  *   sq  <op> …                         raw coap_insert_node / coap_pop_next / coap_remove_from_queue /
  *                                      coap_adjust_basetime / coap_cancel_* on real coap_queue_t nodes
  *   tmo atI atF arfI arfF r            coap_calc_timeout
@@ -183,9 +185,11 @@ static int apply_ev(char *w) {
   char *f[8];
   int n = split(w, ':', f, 8);
   if (n < 1) return 0;
-  if (!strcmp(f[0], "s") && n == 5 && allnum(f, 1, 2) && allnum(f, 3, 5) && (!strcmp(f[2], "c") || !strcmp(f[2], "n"))) {
-    int s = atoi(f[1]), mid = atoi(f[3]), r = atoi(f[4]);
-    uint8_t tk[2] = { (uint8_t)(mid >> 8), (uint8_t)mid };
+  if (((!strcmp(f[0], "s") && n == 5) || (!strcmp(f[0], "S") && n == 6)) && allnum(f, 1, 2) && allnum(f, 3, n) &&
+      (!strcmp(f[2], "c") || !strcmp(f[2], "n"))) {
+    /* s: token = MID;  S: explicit token (several messages may share one, e.g. an Observe registration and its cancellation) */
+    int s = atoi(f[1]), mid = atoi(f[3]), r = atoi(f[4]), tok = n == 6 ? atoi(f[5]) : mid;
+    uint8_t tk[2] = { (uint8_t)(tok >> 8), (uint8_t)tok };
     coap_pdu_t *p;
     coap_mid_t res;
     if (s >= nS) return 0;
@@ -214,6 +218,20 @@ static int apply_ev(char *w) {
   }
   if (!strcmp(f[0], "o") && n == 4 && allnum(f, 1, 4)) {
     inject(atoi(f[1]), COAP_MESSAGE_NON, COAP_RESPONSE_CODE_CONTENT, atoi(f[2]), atoi(f[3]), 1);
+    return 1;
+  }
+  if (!strcmp(f[0], "i") && n == 2 && allnum(f, 1, 2)) {
+    /* an ICMP error (ECONNREFUSED) is read from the session's socket: coap_io_do_epoll -> coap_read_session ->
+     * coap_session_disconnected_lkd(COAP_NACK_ICMP_ISSUE) */
+    int s = atoi(f[1]);
+    if (s >= nS) return 0;
+    if (sock_open(S[s])) sim_inject_icmp(S[s]);
+    return 1;
+  }
+  if (!strcmp(f[0], "k") && n == 2 && allnum(f, 1, 2)) {
+    /* keepalive: from now on the I/O loop sends an empty Confirmable ("ping") on every established client session that
+     * has been silent for SECS seconds (0: off) */
+    coap_context_set_keepalive(ctx, (unsigned)strtoul(f[1], NULL, 10));
     return 1;
   }
   if ((!strcmp(f[0], "h") || !strcmp(f[0], "u") || !strcmp(f[0], "f")) && n == 2 && allnum(f, 1, 2)) {
